@@ -157,6 +157,8 @@ def run(ctx):
             ctx.violation("pretty-quotes", "C13 fails on the real PrettyPrintErrorMessage: stripping the escape sequences and the `error: ` prefix does not give back the plain message: every matched pair of double quotes is gone (%d of %d messages), e.g.\n%r\n" % (len(full), len(msgs), ex))
     # M15 tie: the model of PrettyPrintErrorMessage, evaluated inside Coq, against the real function on the same messages
     tie_msgs = [m for m in msgs if "\x1b" not in m]
+    if len(tie_msgs) > 2400:     # the real messages are at the end of the list; Coq evaluates about 20 messages a second
+        tie_msgs = tie_msgs[:1800] + tie_msgs[-600:]
     ncmp, badp = ds.pretty_model_tie(tie_msgs, ctx.scratch())
     ctx.obligation("model M15 (coq/model/Pretty.v, evaluated inside Coq) == PrettyPrintErrorMessage, byte for byte, on %d messages" % (ncmp or 0), ncmp is not None and not badp)
     if ncmp is None:
